@@ -65,7 +65,7 @@ ASSUMPTIONS = [
     "protocol-level contradictions (C07) end the session unjudged",
     "the two history-based mechanism names are decided from the wire history and the observed register/value only",
 ]
-TIMEOUT = {"quick": 900, "thorough": 4 * 3600}
+TIMEOUT = {"quick": 3000, "thorough": 6 * 3600}      # generous: the machine may be heavily shared
 
 ACK_WINDOW = 16
 RESET_WINDOW = 4
